@@ -105,6 +105,32 @@ def expr_layer(quick_budget=4, thorough_budget=5):
     return run
 
 
+def sig_layer(pid="C07", quick_s=20, thorough_s=400):
+    """C07 end-to-end layer, bounded (runtime/sig_enum.py): callbacks of every small signature shape on a real machine."""
+    import json as _json
+
+    def run(tier, seed, run_native):
+        limit, mx = (thorough_s, 3) if tier == "thorough" else (quick_s, 2)
+        rc, out, err = run_native(["-m", "runtime.sig_enum", str(limit), str(seed), str(mx)], timeout=limit * 2 + 120)
+        try:
+            res = _json.loads(out.strip().splitlines()[-1])
+        except Exception:
+            return {"what": f"{pid} signature end-to-end layer", "error": (err or out)[-400:], "violations": []}
+        r = {"what": "C07 end-to-end layer: callbacks of every small signature shape (positional-only / positional-or-keyword / keyword-only, "
+                     "with and without defaults, *args, **kwargs) attached as function, method, functools.partial and coroutine, plus lambdas of one "
+                     "class body, closures of one factory and the event's own kwargs across phases, on a REAL machine vs an executable reading of "
+                     "the property (bounded, not a proof)",
+             "bound": f"<= {mx} named parameters over 6 names (3 of them built-in names), 0-3 positional arguments x 5 keyword sets, send() and direct call; "
+                      f"time budget {limit}s (shapes shuffled by seed; exhaustive only if reported so); region PO-by-keyword excluded",
+             "evaluations": res.get("cases"), "distinct": res.get("cases"), "exhaustive": res.get("exhaustive_over_shapes", False),
+             "seconds": res.get("seconds"), "violations": []}
+        if res.get("violation"):
+            r["violations"].append({"name": f"bounded:{pid}:callback-received-other-arguments-than-declared", "replay": res.get("replay"),
+                                    "difference": res["violation"]})
+        return r
+    return run
+
+
 def api_layer(pid, quick_s=6, thorough_s=90):
     """Bounded API-level stand-in (runtime/api_checks.py): random small cases on the real library vs a
     reference computed from the property statement.  Never counted as proved."""
@@ -176,13 +202,15 @@ PROPERTIES = {
     "C15": {"bounded": [api_layer("C15"), witnesses("C15", ["C15_any_skips_later_states"])],
             "assumptions": ["builders (to / from_ / itself / any, |, add_transitions, Events.add, factory.add_*, States.from_enum) are not under "
                             "contract yet: the bounded API layer (all renderings of random small abstract machines) stands in"]},
-    "C16": {"bounded": [api_layer("C16"), witnesses("C16", ["C16_subclass_changes_base", "C07_signature_cache_key"])],
+    "C16": {"bounded": [api_layer("C16"), sig_layer("C16", quick_s=4, thorough_s=60), witnesses("C16", ["C16_subclass_changes_base", "C07_signature_cache_key"])],
             "scans": [lambda: __import__("checker.scans", fromlist=["x"]).scan_ownership()],
             "assumptions": ["ownership table (checker/scans.py) is part of the contract: every heap write site in the package is classified"]},
     "C07": {"lemmas": [lambda: __import__("contracts.signature", fromlist=["x"]).scan_signature_cache_key()],
+            "bounded": [sig_layer("C07")],
             "assumptions": ["inspect.Signature validity (kind order, distinct names) as a precondition of bind_expected",
-                            "inspect.BoundArguments.args/.kwargs (how a binding is turned into a call) are CPython's",
-                            "callable_method / attr_method / event_method adapters (dispatcher.py) are not under contract yet"]},
+                            "inspect.BoundArguments.args/.kwargs (how a binding is turned into a call) are CPython's (modelled as two attributes of the binding object)",
+                            "attr_method / event_method adapters (dispatcher.py) and Event.__call__'s stripping of reserved names are not under contract: "
+                            "covered by the bounded end-to-end layer only"]},
     "C08": {"bounded": [expr_layer()],
             "assumptions": [
                 "operands of guard expressions are read without side effects (OperandCall oracle)",
